@@ -237,7 +237,8 @@ def _expect_ldt2(kind, r, cal, D, n, lo, hi, inr, what, huge):
     if kind == "ok":
         gd, gn = r.date._days_since_epoch, r.nanosecond_of_day
         if not inr:
-            return {"key": "ldt-out-of-range-returned" + sfx, "what": f"{what}: returned day {gd} nod {gn}; exact day {D} is outside [{lo},{hi}]"}
+            k = "inexact-amount-beyond-decimal-precision" if huge else "ldt-out-of-range-returned"
+            return {"key": k + sfx, "what": f"{what}: returned day {gd} nod {gn}; exact day {D} is outside [{lo},{hi}]"}
         if not (0 <= gn < NPD):
             return {"key": "ldt-time-invariant", "what": f"{what}: nanosecond_of_day={gn}"}
         if (gd, gn) != (D, n):
@@ -801,8 +802,33 @@ def gen_period_ops(ctx, n):
     return ops
 
 
+def gen_huge_ops(ctx):
+    """amounts k*upd+delta far beyond 64 bits, compensated by -k days so that the exact result stays next to the start:
+    the 28-digit Decimal quotient inside _add_local_time_with_extra_days is where value-dependent errors would sit"""
+    cals = {tok: (lo, hi) for tok, c, lo, hi in cal_table()}
+    ops = []
+    for cid, d in (("ISO", 18262), ("Julian", 0), ("Hebrew Civil", -5), ("Hijri Civil-Base15", 12345), ("Persian Simple", 2932610), ("Coptic", -615558)):
+        tok = cal_tok(cid)
+        lo, hi = cals[tok]
+        for j, f in reversed(list(enumerate(PFIELDS))):
+            upd = NPD // UNIT_NANOS[f]
+            for e in range(12, 30):
+                k = 10**e
+                for delta in (-1, 0, 1):
+                    for sg in (1, -1):
+                        for kk in (k, -k):
+                            tv = [0] * 6
+                            tv[j] = kk * upd + delta
+                            ops.append(f"ldt.plusperiod {tok} {sg} {lo} {hi} {d} 0 0 0 {d} 0 {-kk} " + " ".join(map(str, tv)))
+                if cid == "ISO":
+                    ops.append(f"ldt.plus {tok} {f} {lo} {hi} {d} 0 {k * upd - 1}")
+                    ops.append(f"tod.plus {f} 0 {k * upd - 1}")
+    return ops
+
+
 def run(ctx):
-    n = ctx.scale(24_000, 2_000_000)
+    n = ctx.scale(24_000, 600_000)
+    ctx.correspond("ldt.huge", gen_huge_ops(ctx), impl, oracle=oracle, neighbours=neighbours)
     ctx.correspond("tod.ops", gen_tod_ops(ctx, n), impl, oracle=oracle, neighbours=neighbours)
     ctx.correspond("ldt.plus", gen_ldt_ops(ctx, n), impl, oracle=oracle, neighbours=neighbours)
     ctx.correspond("ldt.period", gen_period_ops(ctx, n // 2), impl, oracle=oracle, neighbours=neighbours)
